@@ -113,9 +113,18 @@ def conn_param(f):
 
 
 def own_N(nkey):
-    """N is the caller's own qubit count: built from parameters only, no integer constant"""
+    """N is the caller's own qubit count: derived from parameters only - no arithmetic on it and no
+    free-standing integer constant (constant subscripts such as .shape[0] are fine)"""
+    def has_arith(k):
+        if isinstance(k, tuple) and k:
+            if isinstance(k[0], str) and k[0].startswith(("bin", "un")):
+                return True
+            return any(has_arith(x) for x in k[1:])
+        return False
     lv = key_leaves(nkey)
-    return bool(lv) and all(x[0] == "param" or (x[0] == "const" and x[1] == "str") for x in lv) and any(x[0] == "param" for x in lv)
+    if isinstance(nkey, tuple) and nkey and nkey[0] == "const":
+        return False
+    return bool(lv) and any(x[0] == "param" for x in lv) and not has_arith(nkey)
 
 
 def norm_term(t, inv=0, ids=None):
@@ -470,9 +479,14 @@ def class_id_symbols(flow, fq):
     """symbols used as class id (third argument of a stabilizer-table accessor call) on any path of fq"""
     out = set()
     for r in flow.paths(fq):
-        reads = [ev for ev in r.events if ev[0] == "read-file"]
+        if not any(ev[0] == "read-file" for ev in r.events):
+            continue
         for ev in r.events:
-            if ev[0] == "call" and len(ev[2]) >= 3 and any(rd[3] == ev[1] for rd in reads):
+            if ev[0] != "call" or not ev[1].startswith(ACCESSOR_MODULE + ".") or ev[1].split(".")[-1].startswith("_"):
+                continue
+            if "lc_class_id" in ev[3]:
+                out.add(vkey(ev[3]["lc_class_id"]))
+            elif len(ev[2]) >= 3:
                 out.add(vkey(ev[2][2]))
     return out
 
